@@ -32,7 +32,7 @@ class C19(BaseCheck):
   REQUIRED_ANCHORS = ANCHORS
   REQUIRED_CLASSES = ('parent-deleted', 'parent-recreated-same-names', 'parent-recreated-different-names',
                       'callback-raised', 'callback-slow', 'iteration-left-unfinished', 'burst', 'non-member-child', 'path-created-later', 'vanished-before-read', 'fast-recreate',
-                      'same-name-recreated', 'blip', 'restart-same-endpoint',
+                      'same-name-recreated', 'blip', 'restart-same-endpoint', 'member-read-fails-in-a-batch',
                       'blip:names-taken-by-other-servers', 'tuple-members')
   ASSUMPTIONS = ('member znodes get fresh sequential names within one incarnation of the watched path (as '
                  'ZooKeeper sequential nodes do); a name is used again only after the path itself was re-created, '
@@ -233,6 +233,23 @@ class C19(BaseCheck):
         else:
           zk.create_node(path + '/' + n, b'x')
         classes.add('non-member-child')
+      elif k < 0.685 and path in zk.nodes:
+        # several registrations reach the client in one listing and the read of one of them (not the first)
+        # fails with a connection loss; the next listing - another registration - has the client read them again
+        classes.add('member-read-fails-in-a-batch')
+        zk.get_fault_skip, zk.get_faults = 1, 1
+        for _i in range(rng.randint(2, 4)):
+          add_member()
+        for _j in range(60):
+          gevent.sleep(max(zk.latency[1], 0.001) * 3)
+          if zk.quiet() and ss._notification_queue.empty():
+            break
+        zk.get_fault_skip, zk.get_faults = 0, 0
+        add_member()
+        for _j in range(60):
+          gevent.sleep(max(zk.latency[1], 0.001) * 3)
+          if zk.quiet() and ss._notification_queue.empty():
+            break
       elif k < 0.74:
         classes.add('burst')
         for _i in range(rng.randint(2, 8)):
